@@ -792,8 +792,8 @@ def run_outlets_case(case, res):
         preload_mem(sim, case["mem"])
         ids = ("InstructionMemoryInstrText", "InstructionReadAddressText") if mode == "five" else ("instr-mem-instr-text", "instr-mem-read-addr-text")
 
-        def view_ok(when):
-            vals = dict((i_, v) for (i_, _k, v) in (sim.get_riscv_five_stage_svg_update_values() if mode == "five" else sim.get_riscv_single_stage_svg_update_values()))
+        def view_ok(when, only_cache=False):
+            vals = {} if only_cache else dict((i_, v) for (i_, _k, v) in (sim.get_riscv_five_stage_svg_update_values() if mode == "five" else sim.get_riscv_single_stage_svg_update_values()))
             txt, a = vals.get(ids[0]), vals.get(ids[1])
             if txt and a not in (None, ""):
                 res.count("pipeline_view_texts_checked")
@@ -842,6 +842,41 @@ def run_outlets_case(case, res):
                 break
             k += 1
             if not view_ok("step %d" % k):
+                return
+        if case.get("icache") and len(lst) >= 2:
+            # ANOTHER program is loaded into a (not started) simulation whose cache table was last looked at after j
+            # fetches of the first program; the new program is fetched j times with nobody looking in between: the
+            # table shows the NEW program's texts at the addresses where they are stored
+            def table_ok(sim_, lst_, when):
+                for set_ in sim_.get_instruction_cache_entries().sets:
+                    for blk in set_.blocks:
+                        for (a_, t_) in blk.address_value_list:
+                            if a_ and t_ and str(t_).strip():
+                                res.count("icache_table_texts_checked")
+                                if lst_.get(int(a_, 16)) != str(t_):
+                                    res.violation("C14", "cache-table-text", "%s mode %s: the instruction-cache table shows %r at address 0x%s, the instruction stored there prints as %r" % (mode, when, t_, a_, lst_.get(int(a_, 16))), case)
+                                    return False
+                return True
+
+            texts = [lst[a_] for a_ in sorted(lst)]
+            s3 = mk(mode, icache=case.get("icache"))
+            try:
+                s3.load_program("\n".join(texts))
+                l1 = dict(s3.state.instruction_memory.get_representation())
+                addrs = sorted(l1)[: 1 + len(texts) % 4]
+                for a_ in addrs:
+                    s3.state.instruction_memory.read_instruction(a_)
+                if not table_ok(s3, l1, "after %d fetches of the first program" % len(addrs)):
+                    return
+                s3.load_program("\n".join(texts[1:] + texts[:1]))
+                l2 = dict(s3.state.instruction_memory.get_representation())
+                for a_ in addrs:
+                    if a_ in l2:
+                        s3.state.instruction_memory.read_instruction(a_)
+            except Exception:
+                continue
+            res.count("icache_tables_checked_after_reload")
+            if not table_ok(s3, l2, "after a second program was loaded and fetched %d times without looking" % len(addrs)):
                 return
     res.nontrivial(h64(case))
 
